@@ -85,7 +85,7 @@ StepPasses(r, s, p) == LET st == StepsOf(r, s)[p]  o == OutcomeLast(r, s, p) IN
 
 \* ---------------------------------------------------------------- "something went wrong", from source events only
 BadEvent(r, e) ==
-   \/ e.k = "step" /\ e.outcome \in {"fail", "error", "kbd", "nest_fail", "nest_error", "nest_undef"}
+   \/ e.k = "step" /\ e.outcome \in {"fail", "skip_fail", "error", "kbd", "nest_fail", "nest_error", "nest_undef"}
    \/ e.k = "step" /\ e.outcome \in {"pending", "nest_pending"} /\ ~Wip(r, e.el)
    \/ e.k = "step" /\ LookupFails(r, e.el, e.pos)
    \/ e.k = "hook" /\ e.raised
@@ -113,7 +113,7 @@ Enrich(r0) ==
        \* skip entries whose hook really ran
        done(k) == \E i \in I : E[i].k = "hook" /\ E[i].name = r0.skips[k].name /\ E[i].el = r0.skips[k].el
        skipped == {r0.skips[k].el : k \in {j \in DOMAIN r0.skips : done(j)}}
-   IN [prog |-> r0.prog, cfg |-> r0.cfg, skips |-> r0.skips, events |-> r0.events, end |-> r0.end, base |-> r0.base,
+   IN [prog |-> r0.prog, cfg |-> r0.cfg, skips |-> r0.skips, hookcl |-> r0.hookcl, events |-> r0.events, end |-> r0.end, base |-> r0.base,
        x |-> [anc |-> anc, eff |-> eff,
               hskip |-> [el \in els |-> (({el} \cup anc[el]) \cap skipped) # {}],
               askip |-> [el \in els |-> (anc[el] \cap skipped) # {}],
@@ -143,7 +143,7 @@ C01Exit(r) == IF (r.exit # 0) # Wrong(r) THEN {"C01.exit_code"} ELSE {}
 \* ======================================================================= C02
 MapStatus(r, s, p) == LET o == OutcomeLast(r, s, p) IN
    IF LookupFails(r, s, p) THEN "error"
-   ELSE CASE o = "pass" -> "passed" [] o = "fail" -> "failed" [] o \in {"error", "kbd"} -> "error"
+   ELSE CASE o = "pass" -> "passed" [] o \in {"fail", "skip_fail"} -> "failed" [] o \in {"error", "kbd"} -> "error"
           [] o = "pending" -> (IF Wip(r, s) THEN "pending_warn" ELSE "pending")
           [] o = "skip" -> "skipped"
           \* the step delegates to a sub-step through context.execute_steps(): passes iff the sub-step passes
@@ -383,6 +383,11 @@ C13rVis(r) ==
    \cup (IF \E i \in Ix(r) : LET e == Ev(r, i) IN e.k = "step" /\
              (e.vis[1] # 1 \/ e.vis[2] # FeatOf(r, e.el) \/ e.vis[3] # RuleOf(r, e.el) \/ e.vis[4] # e.el)
          THEN {"C13.visible"} ELSE {})
+RegHooks == {"before_all", "after_all", "before_feature", "before_rule", "before_scenario", "after_scenario"}
+\* the element whose scope holds the cleanup registered by step p of scenario s (0: the test run)
+ClOwner(r, s, p) == LET st == StepsOf(r, s)[p] IN
+                    CASE st.cl_layer \in {"", "scenario"} -> s [] st.cl_layer = "rule" -> RuleOf(r, s)
+                      [] st.cl_layer = "feature" -> FeatOf(r, s) [] OTHER -> 0
 C13rCl(r) ==
    \* every cleanup runs exactly once per registration (a step that runs again in a second attempt registers again)
    (IF Ran(r) /\ \E s \in Scens(r) : \E p \in DOMAIN StepsOf(r, s) : LET c == StepsOf(r, s)[p].cl_id IN
@@ -390,6 +395,20 @@ C13rCl(r) ==
                    # Cardinality({i \in AllStepEvs(r, s) : Ev(r, i).pos = p /\ ~LookupFails(r, s, p)})
     THEN {"C13.cleanup_once"} ELSE {})
    \cup (IF Ran(r) /\ AnyCleanupRaised(r) /\ ~r.end.verdict THEN {"C13.cleanup_fails_run"} ELSE {})
+   \* hooks that register a cleanup (row.hookcl): each of them runs exactly once, too -- also one registered by after_all
+   \cup (IF Ran(r) /\ r.hookcl /\ \E i \in Ix(r) : Ev(r, i).k = "hook" /\ Ev(r, i).name \in RegHooks
+                                  /\ Cardinality({j \in Ix(r) : Ev(r, j).k = "cleanup" /\ Ev(r, j).cid = 500 + Ev(r, i).n}) # 1
+         THEN {"C13.cleanup_once"} ELSE {})
+   \* cleanups of one scope run in reverse order of registration (not judged under autoretry, where a step registers twice)
+   \cup (IF Ran(r) /\ ~r.cfg.retry /\
+            LET regs == (IF r.hookcl THEN {[cid |-> 500 + Ev(r, i).n, at |-> i, scope |-> Ev(r, i).el] :
+                                           i \in {j \in Ix(r) : Ev(r, j).k = "hook" /\ Ev(r, j).name \in RegHooks}} ELSE {})
+                        \cup {[cid |-> StepsOf(r, Ev(r, i).el)[Ev(r, i).pos].cl_id, at |-> i, scope |-> ClOwner(r, Ev(r, i).el, Ev(r, i).pos)] :
+                              i \in {j \in Ix(r) : Ev(r, j).k = "step" /\ Ev(r, j).pos # 0 /\ StepsOf(r, Ev(r, j).el)[Ev(r, j).pos].cl_id # 0
+                                                    /\ ~LookupFails(r, Ev(r, j).el, Ev(r, j).pos)}}
+                ranAt(c) == {j \in Ix(r) : Ev(r, j).k = "cleanup" /\ Ev(r, j).cid = c}
+            IN \E a, b \in regs : a.scope = b.scope /\ a.at < b.at /\ \E ja \in ranAt(a.cid) : \E jb \in ranAt(b.cid) : ja < jb
+         THEN {"C13.cleanup_lifo"} ELSE {})
    \* a raising cleanup makes the element that owns its scope fail (scenario scopes not judged under autoretry: a later
    \* attempt may pass)
    \cup (IF Ran(r) /\ \E s \in Scens(r) : \E p \in DOMAIN StepsOf(r, s) : LET st == StepsOf(r, s)[p] IN
